@@ -14,6 +14,20 @@ pub fn pool() -> Value {
     })
 }
 
+/// TLC's Json module has no null; a field serialised as null is read as an absent field
+fn strip_nulls(v: &mut Value) {
+    match v {
+        Value::Object(m) => {
+            m.retain(|_, x| !x.is_null());
+            for (_, x) in m.iter_mut() {
+                strip_nulls(x);
+            }
+        }
+        Value::Array(a) => a.iter_mut().for_each(strip_nulls),
+        _ => {}
+    }
+}
+
 fn probe_inputs() -> Vec<String> {
     vec!["a\"\\\u{7}é€😀😀\t\n\"x'/* c */ab".to_string(), "".to_string(), "\\\\\"\"é€😀b\\é".to_string(), "/**/a\"b".to_string()]
 }
@@ -140,6 +154,7 @@ pub fn main(args: &[String]) -> i32 {
         if o.get("value").is_none() {
             o["value"] = json!([]);
         }
+        strip_nulls(&mut o["value"]);
         o["kind"] = json!(kind);
         o["id"] = id;
         writeln!(out, "{}", serde_json::to_string(&o).unwrap()).unwrap();
